@@ -40,7 +40,7 @@ theorem refused_iff (d : Deque) (m : Mem) (x i : Nat) (hi : d.Inv) :
 /-- the same at the level of histories: which calls of a history are blocked (`C05.flags`) is determined
 call by call by `refused_iff` -/
 theorem history_blocked_iff (d : Deque) (m : Mem) (op : Op) (hi : d.Inv) :
-    blocked d m op = true ↔ needsAlloc d op ∧ ((m.allocT d.triple).1 = false ∨ limitHit d op) :=
+    blocked d m op = true ↔ needsAlloc d op ∧ (refusalFires d m op ∨ limitHit d op) :=
   blocked_iff d m op hi
 
 /-- **atomic**: whenever one of the allocating operations reports an error, the deque is *physically*
@@ -139,14 +139,14 @@ theorem continue_after_refusal (d : Deque) (m m' : Mem) (op : Op) (ops : List Op
 
 /-- … and against the ideal list, for histories outside finding D3: the run after the blocked call refines
 the ideal list continued from the content *before* the failed call, whatever else is refused later -/
-theorem continue_refines (d : Deque) (m : Mem) (op : Op) (ops : List Op) (hi : d.Inv)
+theorem continue_refines_partial (d : Deque) (m : Mem) (op : Op) (ops : List Op) (hi : d.Inv)
     (href : blocked d m op = true)
     (hfree : d3FreeB d.abs (ops.zip (flags d (stepM d m op).2.2 ops))) :
-    (runM d m (op :: ops)).1 = ⟨some .errAlloc, none⟩ :: (runB d.abs (ops.zip (flags d (stepM d m op).2.2 ops))).1 ∧
+    (runM d m (op :: ops)).1 = ⟨some .errAlloc, none, []⟩ :: (runB d.abs (ops.zip (flags d (stepM d m op).2.2 ops))).1 ∧
     (runM d m (op :: ops)).2.1.abs = (runB d.abs (ops.zip (flags d (stepM d m op).2.2 ops))).2 ∧
     (runM d m (op :: ops)).2.1.Inv := by
   obtain ⟨b1, b2, _⟩ := blocked_inert d m op hi href
-  obtain ⟨r1, r2, r3, _⟩ := history_refines_sched ops d (stepM d m op).2.2 hi hfree
+  obtain ⟨r1, r2, r3, _⟩ := history_refines_sched_partial ops d (stepM d m op).2.2 hi hfree
   simp only [runM]
   rw [b2, b1]
   exact ⟨by rw [r1], r2, r3⟩
